@@ -69,7 +69,12 @@ def private(case, model, distributed_wrap):
     B = case['B']
     ds = TensorDataset(torch.zeros(4 * B, 4), torch.zeros(4 * B, dtype=torch.long))
     dl = DataLoader(ds, batch_size=B)
-    opt = torch.optim.SGD(model.parameters(), lr=0.1, momentum=0.5) if case['model'] != 'probe' else torch.optim.SGD(model.parameters(), lr=1.0)
+    plist = list(model.parameters())
+    if case.get('late_group') and len(plist) > 2:
+        # the optimizer first knows the last layer only; the other parameters join through add_param_group after the first step
+        opt = torch.optim.SGD(plist[-2:], lr=0.1, momentum=0.5)
+    else:
+        opt = torch.optim.SGD(plist, lr=0.1, momentum=0.5) if case['model'] != 'probe' else torch.optim.SGD(plist, lr=1.0)
     eng = PrivacyEngine()
     red = case['reduction']
     crit = nn.CrossEntropyLoss(reduction=red) if case['model'] != 'probe' else ProbeCrit(red)
@@ -90,7 +95,12 @@ def private(case, model, distributed_wrap):
 
 
 def train(case, m, o, crit, batches):
-    for (x, y) in batches:
+    for bi, (x, y) in enumerate(batches):
+        if bi == 1 and case.get('late_group'):
+            known = {id(p) for gp in o.param_groups for p in gp['params']}
+            rest = [p for p in m.parameters() if id(p) not in known]
+            if rest:
+                o.add_param_group({'params': rest})
         o.zero_grad()
         out = m(x)
         loss = crit(out, y)
